@@ -4,6 +4,23 @@ tools/claims/*.json, evidence/*.json and known_findings.json."""
 import glob, json, os, re
 V = os.path.dirname(os.path.dirname(os.path.abspath(__file__)))
 s = open(os.path.join(V, "DESIGN.md")).read()
+# ---- source-tie coverage table inside section 12 (between the srccover markers)
+sc = os.path.join(V, "tools", "srccover.json")
+if os.path.exists(sc) and "<!-- srccover:begin -->" in s:
+    cov = json.load(open(sc))
+    tab = "| file | functions tied | statements tied | not tied |\n|---|---|---|---|\n"
+    ts = tt = fs = ft = 0
+    for f in sorted(cov):
+        c = cov[f]
+        if c["stmts"] == 0:
+            continue
+        un = c["untied"]
+        tab += "| `%s` | %d / %d | %d / %d | %s |\n" % (f.replace("netaddr/", ""), len(c["tied"]), len(c["tied"]) + len(un), c["stmts_tied"],
+                                                      c["stmts"], (", ".join("`%s`" % u for u in un[:12]) + (" ..." if len(un) > 12 else "")) if un else "-")
+        ts += c["stmts_tied"]; tt += c["stmts"]; fs += len(c["tied"]); ft += len(c["tied"]) + len(un)
+    tab += "| **total** | **%d / %d** | **%d / %d** | |\n" % (fs, ft, ts, tt)
+    a, b = s.index("<!-- srccover:begin -->"), s.index("<!-- srccover:end -->")
+    s = s[:a] + "<!-- srccover:begin -->\n" + tab + s[b:]
 marker = "\n## 13. Seeded changes"
 if marker in s:
     s = s[:s.index(marker)]
